@@ -10593,19 +10593,31 @@ CK_RV SoftHSM::deriveDH
 				switch (keyType)
 				{
 					case CKK_GENERIC_SECRET:
-						secret->setBitLen(byteLen * 8);
-						plainKCV = secret->getKeyCheckValue();
+					{
+						SymmetricKey kcvKey;
+						kcvKey.setKeyBits(secretValue);
+						kcvKey.setBitLen(byteLen * 8);
+						plainKCV = kcvKey.getKeyCheckValue();
 						break;
+					}
 					case CKK_DES:
 					case CKK_DES2:
 					case CKK_DES3:
-						secret->setBitLen(byteLen * 7);
-						plainKCV = ((DESKey*)secret)->getKeyCheckValue();
+					{
+						DESKey kcvKey;
+						kcvKey.setKeyBits(secretValue);
+						kcvKey.setBitLen(byteLen * 7);
+						plainKCV = kcvKey.getKeyCheckValue();
 						break;
+					}
 					case CKK_AES:
-						secret->setBitLen(byteLen * 8);
-						plainKCV = ((AESKey*)secret)->getKeyCheckValue();
+					{
+						AESKey kcvKey;
+						kcvKey.setKeyBits(secretValue);
+						kcvKey.setBitLen(byteLen * 8);
+						plainKCV = kcvKey.getKeyCheckValue();
 						break;
+					}
 					default:
 						bOK = false;
 						break;
@@ -10946,19 +10958,31 @@ CK_RV SoftHSM::deriveECDH
 				switch (keyType)
 				{
 					case CKK_GENERIC_SECRET:
-						secret->setBitLen(byteLen * 8);
-						plainKCV = secret->getKeyCheckValue();
+					{
+						SymmetricKey kcvKey;
+						kcvKey.setKeyBits(secretValue);
+						kcvKey.setBitLen(byteLen * 8);
+						plainKCV = kcvKey.getKeyCheckValue();
 						break;
+					}
 					case CKK_DES:
 					case CKK_DES2:
 					case CKK_DES3:
-						secret->setBitLen(byteLen * 7);
-						plainKCV = ((DESKey*)secret)->getKeyCheckValue();
+					{
+						DESKey kcvKey;
+						kcvKey.setKeyBits(secretValue);
+						kcvKey.setBitLen(byteLen * 7);
+						plainKCV = kcvKey.getKeyCheckValue();
 						break;
+					}
 					case CKK_AES:
-						secret->setBitLen(byteLen * 8);
-						plainKCV = ((AESKey*)secret)->getKeyCheckValue();
+					{
+						AESKey kcvKey;
+						kcvKey.setKeyBits(secretValue);
+						kcvKey.setBitLen(byteLen * 8);
+						plainKCV = kcvKey.getKeyCheckValue();
 						break;
+					}
 					default:
 						bOK = false;
 						break;
@@ -11300,19 +11324,31 @@ CK_RV SoftHSM::deriveEDDSA
 				switch (keyType)
 				{
 					case CKK_GENERIC_SECRET:
-						secret->setBitLen(byteLen * 8);
-						plainKCV = secret->getKeyCheckValue();
+					{
+						SymmetricKey kcvKey;
+						kcvKey.setKeyBits(secretValue);
+						kcvKey.setBitLen(byteLen * 8);
+						plainKCV = kcvKey.getKeyCheckValue();
 						break;
+					}
 					case CKK_DES:
 					case CKK_DES2:
 					case CKK_DES3:
-						secret->setBitLen(byteLen * 7);
-						plainKCV = ((DESKey*)secret)->getKeyCheckValue();
+					{
+						DESKey kcvKey;
+						kcvKey.setKeyBits(secretValue);
+						kcvKey.setBitLen(byteLen * 7);
+						plainKCV = kcvKey.getKeyCheckValue();
 						break;
+					}
 					case CKK_AES:
-						secret->setBitLen(byteLen * 8);
-						plainKCV = ((AESKey*)secret)->getKeyCheckValue();
+					{
+						AESKey kcvKey;
+						kcvKey.setKeyBits(secretValue);
+						kcvKey.setBitLen(byteLen * 8);
+						plainKCV = kcvKey.getKeyCheckValue();
 						break;
+					}
 					default:
 						bOK = false;
 						break;
@@ -11890,29 +11926,38 @@ CK_RV SoftHSM::deriveSymmetric
 				}
 
 				// Get the KCV
-				SymmetricKey* secret = new SymmetricKey();
-				secret->setKeyBits(secretValue);
 				switch (keyType)
 				{
 					case CKK_GENERIC_SECRET:
-						secret->setBitLen(byteLen * 8);
-						plainKCV = secret->getKeyCheckValue();
+					{
+						SymmetricKey kcvKey;
+						kcvKey.setKeyBits(secretValue);
+						kcvKey.setBitLen(byteLen * 8);
+						plainKCV = kcvKey.getKeyCheckValue();
 						break;
+					}
 					case CKK_DES:
 					case CKK_DES2:
 					case CKK_DES3:
-						secret->setBitLen(byteLen * 7);
-						plainKCV = ((DESKey*)secret)->getKeyCheckValue();
+					{
+						DESKey kcvKey;
+						kcvKey.setKeyBits(secretValue);
+						kcvKey.setBitLen(byteLen * 7);
+						plainKCV = kcvKey.getKeyCheckValue();
 						break;
+					}
 					case CKK_AES:
-						secret->setBitLen(byteLen * 8);
-						plainKCV = ((AESKey*)secret)->getKeyCheckValue();
+					{
+						AESKey kcvKey;
+						kcvKey.setKeyBits(secretValue);
+						kcvKey.setBitLen(byteLen * 8);
+						plainKCV = kcvKey.getKeyCheckValue();
 						break;
+					}
 					default:
 						bOK = false;
 						break;
 				}
-				delete secret;
 
 				if (isPrivate)
 				{
